@@ -10,13 +10,16 @@ package main
 //	                            pruning  y syncable | e everything | n nothing
 //	                          only as the first op of a case; the first cfg is the reference
 //	tx <who> <gas> <msg>{1..4}   who = u0|u1|u2|x0 (x0 never has an account); gas = hi|lo
+//	probe <who> <gas> <msg>{1..3}   1000000 <= gas <= 299999999: the same transaction as `tx` but with
+//	                          this gas limit and one more, always failing, message appended
+//	                          (a send of a denom nobody holds): it has no effect, wherever it stops
 //	commit                    ends the block (an empty block is allowed)
 //	restart                   only directly after `commit`/`open`/case start (block boundary)
 //
 //	msg (fields separated by `;`)
 //	  send;<to>;<amt>;<den>          to = u0|u1|u2 ; 1 <= amt <= 1000000 ; den = u (ugnot) | f (a denom nobody holds)
 //	  add;<slot>                     slot = a|b|c|h   (deploys the slot's fixed realm)
-//	  call;<slot>;<fn>;<k>;<v>;<dep> slot a|b|c: fn = set|del|inc|fail|sum ; slot h: fn = both|half
+//	  call;<slot>;<fn>;<k>;<v>;<dep> slot a|b|c: fn = set|del|inc|fail|sum ; slot h: fn = both|half|grab
 //	                                 0 <= k <= 7 ; -999 <= v <= 999 ; dep = - | d (max_deposit 1ugnot; only with slot b, fn set)
 //	  run;<script>;<k>;<v>           script = ab|fail|noop|read
 
@@ -47,6 +50,7 @@ type opSpec struct {
 	cfgs []cfgSpec
 	who  string
 	lo   bool
+	gas  int64
 	msgs []msgSpec
 }
 
@@ -126,7 +130,7 @@ func pMsg(s string) (msgSpec, bool) {
 		}
 		m.slot, m.fn = f[1][0], f[2]
 		if m.slot == 'h' {
-			if m.fn != "both" && m.fn != "half" {
+			if m.fn != "both" && m.fn != "half" && m.fn != "grab" {
 				return m, false
 			}
 		} else {
@@ -193,6 +197,23 @@ func parseOp(toks []string) (*opSpec, bool) {
 				return nil, false
 			}
 			op.cfgs = append(op.cfgs, c)
+		}
+		return op, true
+	case "probe":
+		if len(toks) < 4 || len(toks) > 6 || !pWho(toks[1]) {
+			return nil, false
+		}
+		g, ok := pNat(toks[2], 9)
+		if !ok || g < 1000000 || g > 299999999 {
+			return nil, false
+		}
+		op.who, op.gas = toks[1], g
+		for _, t := range toks[3:] {
+			m, ok := pMsg(t)
+			if !ok {
+				return nil, false
+			}
+			op.msgs = append(op.msgs, m)
 		}
 		return op, true
 	case "tx":
